@@ -5,6 +5,13 @@ From MM Require Import Lib.Bytes Model.Tunnel Model.Transit Proofs.TunnelProofs.
 Import ListNotations.
 Local Open Scope N_scope.
 
+Fixpoint no_late_anywhere (ops : list dgop) : bool :=
+  match ops with
+  | [] => true
+  | Late _ :: _ => false
+  | _ :: r => no_late_anywhere r
+  end.
+
 (** * Stream tunnels: every frame of every sender is opaque *)
 
 Definition opaque (k : key) (x : blob) : Prop := opaque_to_transit k x = true.
@@ -152,6 +159,35 @@ Lemma datagram_pre_fix_refuted : exists (ops : list dgop) (secret : bytes),
 Proof.
   exists [Up [x01]; Down [x02]; CloseAssoc; Late [x53; x45; x43; x52; x45; x54]], [x53; x45; x43; x52; x45; x54].
   split; [discriminate|]. vm_compute. right. right. left. reflexivity.
+Qed.
+
+(** What still held before the repair: without a datagram processed after
+    the close, every view is sealed (the old and the repaired exit code behave
+    alike on such traces). *)
+Lemma dg_step_versions_agree : forall st o,
+  match o with Late _ => False | _ => True end ->
+  dg_step PreFix st o = dg_step Fixed st o.
+Proof.
+  intros st o H. destruct o as [b|b| |b]; try reflexivity; [|destruct H].
+  cbn [dg_step]. destruct (g_eclosed st) eqn:Ec; [reflexivity|].
+  unfold exit_encrypt. now rewrite Ec.
+Qed.
+
+Lemma dg_run_versions_agree : forall ops st, no_late_anywhere ops = true ->
+  dg_run PreFix st ops = dg_run Fixed st ops.
+Proof.
+  induction ops as [|o ops IH]; intros st H; cbn; [reflexivity|].
+  destruct o as [b|b| |b]; cbn in H; try discriminate;
+    (rewrite dg_step_versions_agree by exact I; now apply IH).
+Qed.
+
+Theorem datagram_views_sealed_pre_fix_without_late : forall k transits ops,
+  no_late_anywhere ops = true ->
+  let st := dg_run PreFix (established k transits) ops in
+  Forall (Forall (fun s => sealed_under k (snd s) = true /\ readable (snd s) = [])) (g_views st).
+Proof.
+  intros k transits ops H. cbn zeta. rewrite dg_run_versions_agree by assumption.
+  apply datagram_views_sealed.
 Qed.
 
 (** Before the close all transits see the same payloads in the same order
